@@ -195,6 +195,16 @@ var props = []*prop{
 		Thorough:    budget{Shards: 14, Checks: 100000, TimeoutS: 3000},
 	},
 	{
+		ID: "C09", Pkg: "c09", Level: "exploration",
+		Technique:   "property-based testing (rapid): specifications decorated with defaults/examples whose expected verdicts come from the draft-4 reference evaluator on each location's own schema; differential against the undecorated document",
+		LevelText:   "Valid generated specifications decorated at every allowed location and depth (definitions, properties, items, tuple items, additionalProperties, allOf members, $ref targets, body and response schemas, simple parameters, headers and their items, response examples) with adversarial names; values inside or outside their schema in three profiles. A default outside => invalid; an example outside => a new warning and still valid; all inside => exactly the baseline report.",
+		LevelNote:   "Trusted: internal/refmodel for the per-location verdict (a value is only used when the library's own direct validation agrees, otherwise the case is a C01/C16 matter and excluded), the undecorated document as baseline. The recorded visited-path heuristic is replicated exactly (path construction + suffix rule).",
+		Assumptions: trusted,
+		Builds:      plain,
+		Quick:       budget{Shards: 14, Checks: 60, TimeoutS: 600, ShrinkS: 30},
+		Thorough:    budget{Shards: 14, Checks: 1200, TimeoutS: 5000, ShrinkS: 60},
+	},
+	{
 		ID: "C10", Pkg: "c10", Level: "exploration",
 		Technique:   "metamorphic property-based testing (rapid): repetitions, serialisation variants and the two continue-on-errors modes of one document must agree as stated",
 		LevelText:   "Valid, singly and multiply broken generated specifications (several independent rule violations in different definitions / operations), structurally edited documents and fixtures; each loaded afresh and validated repeatedly, in both modes, from JSON, key-reversed JSON and YAML; equal message sets across repetitions and renderings, stop-early errors contained in continue-on-errors errors, validity <=> no error, returned warnings = attached warnings.",
